@@ -7,7 +7,7 @@ from rules.common import Anchors, path_calls, ret_kind
 from rules.streams import is_call
 import stdmodel as SM
 
-LEVEL = 'proof'
+LEVEL = 'other'       # was 'proof': seeded changes twice found a channel the reduction had not listed (DESIGN.md §7.6), so the honest level is structural
 NEED_FIXTURE = True
 ROLES = ['lib']
 EXPLANATION = ('R15.1 funnel: the functions that can reach emission are the header writer, the inserting routine -> compile_from -> '
